@@ -144,6 +144,11 @@ def run(rec, tier, seed):
     singles = [[m] for _, m in order] + [[m - 0.04] for _, m in order] + [[m + 0.04] for _, m in order]
     pairs = [[order[i][1], order[j][1]] for i in range(0, len(order), 7) for j in range(3, len(order), 11)]
     fallback = [[12.0107, 2.5], [2.5, 12.0107, 15.9994], [500.0], [39.0983, 58.6934, 400.0]]
+    # many exactly matching types and ONE mass just outside the tolerance of every element, at every position of the list
+    exact = [1.00794, 12.0107, 14.0067, 15.9994, 91.224, 63.546, 65.39]
+    for off in (14.25, 12.5, 1.15, 16.11, 91.45):
+        for pos in (0, 3, len(exact)):
+            fallback.append(exact[:pos] + [off] + exact[pos:])
     for ms in singles + pairs + fallback:
         try:
             ok, msg = check_lmpdat(ms)
